@@ -12,6 +12,7 @@ import (
 	"net"
 	"net/netip"
 	"os"
+	"runtime"
 	"strings"
 	"sync"
 	"syscall"
@@ -277,6 +278,49 @@ func (w *world) close() {
 		// without ever owning the listener: it stays the caller's to close
 		w.lis.Close()
 	}
+	// no goroutine started by corebgp survives Close. A goroutine that has done its
+	// work may still be returning, so the verdict needs one that is still there (and
+	// still the same one) two seconds later.
+	var first map[string]string
+	for i := 0; i < 100; i++ {
+		cur := corebgpGoroutines()
+		if len(cur) == 0 {
+			return
+		}
+		if first == nil {
+			first = cur
+		}
+		time.Sleep(20 * time.Millisecond)
+	}
+	for id, st := range corebgpGoroutines() {
+		if _, ok := first[id]; ok {
+			w.violate("goroutine %s started by corebgp still exists 2 s after Server.Close returned:\n%s", id, st)
+			return
+		}
+	}
+}
+
+// corebgpGoroutines returns the goroutines whose creator is a corebgp function,
+// keyed by goroutine id.
+func corebgpGoroutines() map[string]string {
+	buf := make([]byte, 1<<20)
+	buf = buf[:runtime.Stack(buf, true)]
+	out := map[string]string{}
+	for _, g := range strings.Split(string(buf), "\n\n") {
+		i := strings.LastIndex(g, "created by ")
+		if i < 0 || !strings.HasPrefix(g[i+len("created by "):], "github.com/jwhited/corebgp.") {
+			continue
+		}
+		id := g
+		if j := strings.Index(g, " ["); j > 0 {
+			id = g[:j]
+		}
+		if len(g) > 1500 {
+			g = g[:1500]
+		}
+		out[id] = g
+	}
+	return out
 }
 
 func (w *world) result(sig string, nontrivial bool, events map[string]int) rt.Result {
